@@ -4,6 +4,7 @@
    7 on_generation callback); `stops` is the stream of results of `_termitation_check()`,
    `cb` = "an on_generation callback was supplied". -/
 import TFV.Lemmas.Src.Skeleton
+import TFV.Lemmas.Src.SkeletonModel
 
 namespace TFV.SrcTie
 open TFV.Generated.Src
@@ -46,5 +47,23 @@ theorem C03_src_fit_full (iters : Nat) (rs : Int) (cb : Bool) (stops : List Bool
   all_goals
     have h := count_blocks cb (iters - 1)
     simp [h.1, h.2.1, h.2.2]
+
+/-- the translated skeleton and the model run are the same run: fed with the stopping-rule results
+    the model computes along its own trajectory (`stopsAlong`), the translated `fit` makes exactly one
+    evaluation per state of `Cfg.traj` (the C03 theorems count those) and one callback per state after
+    the first -/
+theorem C03_src_fit_is_model_run {G P : Type} (c : EA.Cfg G P) (fl : EA.Flavour) (init : List G)
+    (oracle : EA.St G P → List G) (rs : Int) (cb : Bool) :
+    ∃ tr, EA_fit (c.iters : Int) rs cb ((stopsAlong c fl oracle (c.iters - 1) (c.first init)).map b2i) = some tr ∧
+      tr.count 3 = (c.traj fl init oracle).length ∧
+      tr.count 7 = (if cb then (c.traj fl init oracle).length - 1 else 0) := by
+  obtain ⟨t, h1, h2, h3⟩ := skeleton_traj c fl oracle cb (c.iters - 1) (c.first init)
+  refine ⟨[1, 2, 3] ++ t, ?_, ?_, ?_⟩
+  · rw [C03_src_fit, fitTrace, h1]; rfl
+  · simp only [List.count_append, EA.Cfg.traj]
+    rw [← h2]; simp; omega
+  · simp only [List.count_append, EA.Cfg.traj, h3]
+    rw [← h2]
+    cases cb <;> simp
 
 end TFV.SrcTie
